@@ -467,6 +467,23 @@ func runDel(t *testing.T, s DelScenario) (r08, r14 Result) {
 				}
 				sort.Slice(removed2, func(i, j int) bool { return removed2[i] < removed2[j] })
 				obs.Removed = append(obs.Removed, removed2)
+				// the retry of a tail-side deletion invokes the handlers again for every header whose
+				// handler failed (and which therefore had to stay) in the first attempt
+				for _, c := range obs.Calls {
+					if c.Attempt != 0 || !c.Failed || c.Height >= rto {
+						continue
+					}
+					again := 0
+					for _, c2 := range obs.Calls {
+						if c2.Attempt == 1 && c2.Height == c.Height {
+							again++
+						}
+					}
+					if again != len(s.Handlers) {
+						fail14("retry: handler %d failed for height %d in the first attempt; the retried tail-side deletion called %d of %d handlers for it (Tail was moved to %d)", c.Handler, c.Height, again, len(s.Handlers), tail.H)
+						break
+					}
+				}
 				e.m.deleteRange(from, to)
 				if v := e.checkStore("after retried deletion"); v != "" {
 					fail08("%s", v)
